@@ -181,3 +181,31 @@ also3("C16", "the open indicator the collector tests (observers) becomes non-nil
 also3("C17", "the placeholder regular expression (a program constant, analysed with regexp/syntax): literal '${', one capture, literal '}', the capture cannot contain '}' and admits [A-Za-z0-9_] at every position; the int-or-string resolver parses the configured string in base 10.")
 also3("C19", "every wait of a round selects on the Done() of the context handed down unchanged from Start (the one Stop cancels): a derived context with its own expiry would end a failing round silently.")
 also3("C20", "the duration that bounds an operation is a timeout option: no configuration field the module uses as a period (ticker, sleep, timer delay) appears as a deadline, and Ping's context is bounded by HealthCheck.Timeout.")
+
+# ---- fourth round of seeded changes (made away from the anchored functions) and the mutation survey
+def also4(pid, text):
+    t, x, r = CLAIMS[pid]
+    CLAIMS[pid] = (t, x + " ALSO DECIDED (fourth round / mutation survey): " + text, r)
+
+FOUND = ("the map wrapper every rule builds on forwards faithfully (Load/Store/StoreIf/Delete/Count with its own arguments and untouched results; Range calls f once per entry and stops "
+         "exactly when f returns false; UnmarshalJSON installs entries only when the whole input decoded)")
+also4("C01", FOUND + "; every position move is an acknowledgement or the absorption of an event's own offset.")
+also4("C02", "every tracked position is dumped and every loaded document becomes a position (Range callbacks return true on every path); one opener per assigned vBucket; dcp.metadata is assigned only the configured backend, the supplied store or the read-only wrapper; " + FOUND + ".")
+also4("C03", "defaulting never rewrites a configured filter option; the flag the gate reads is the one Open switches when it does not start the mitigation component; stream.collectionIDs is assigned only by NewStream.")
+also4("C04", "MUST-HAPPEN clauses: the function stored into ListenerContext.Ack moves the position exactly once on every path with dirty=true (Commit reaches Checkpoint.Save); every non-document listener arm and the reserved-key branch move it exactly once; NewStream wires consumer/client/metadata unchanged (no decorator before TrackOffset); Close unconditionally replaces the position map and dirty marks by fresh maps after the streams were closed; " + FOUND + ".")
+also4("C05", "the same must-happen clauses as C04; the dump and the dirty-set copy run to completion; a primitive's error counts as reported only along edges on which it can be non-nil (err = rename(); if err != nil { err = cleanup() } loses it); dcp.metadata wiring; " + FOUND + ".")
+also4("C06", "every call of the position writer is an event's own offset (no synthetic position); " + FOUND + ".")
+also4("C07", "a copy is marked absent iff its own cluster-map lookup says unassigned (1..3 copies, exhaustive); dispatchPersistSeqNo forwards every report under no condition but 'the stream has that observer' and keeps no state; Open starts the mitigation iff !Disabled && !IsEphemeral() and otherwise switches the very flag the gate reads; every observe/mark loop runs to completion.")
+also4("C08", "after the catch-up filter the handlers deliver under no other predicate; every spawned opener panics on error (none batched away); the threshold is never lowered by adopting a branch id.")
+also4("C09", "one opener per element of the list Get returned; the bus listener reaches Stream.Rebalance on every path; the bus-fed membership implementations record every announcement first and unconditionally and GetInfo only reads.")
+also4("C10", "the membership in effect is assigned only the value being announced (never seeded, never reset); Identity.Equal iff same IP and same name (exhaustive); defaulting never rewrites configured member numbers; follower/instance loops run to completion.")
+also4("C11", "End forwards iff !endClosed whatever the error; bus-fed memberships record every announcement (latest wins) and GetInfo only reads; the membership in effect is assigned only what is announced.")
+also4("C12", "the position a reopen resumes from never moves backwards, whatever the branch ids.")
+also4("C13", "Close cannot hang on a parked event (wait left iff covered or closed); the health checker is started by a plain call of the start path, never by a timer/goroutine/function value; no channel field that a method sends on is closed; the HTTP server is shut down without a fatal deadline; the position writer accepts settled positions in every lifecycle state; close loops run to completion over a faithful map.")
+also4("C14", "reserved-key events still advance the position exactly once; no wrapper is built outside the handler of its kind; the dirty set is cleared as a whole only under err==nil; defaulting never rewrites a configured group name.")
+also4("C15", "the position map is assigned only from the guarded load; every end reaches the end listener while open; openStream makes one request and returns (no loop, no sleep).")
+also4("C16", "must-happen clauses of C04 (gauges move with the work); NewObserver gives every observer a fresh metrics object; the stream getters behind the collector and the state endpoints only read (no lock, channel, wait); every vBucket is reported (loops run to completion); End forwards iff !endClosed.")
+also4("C17", "outside package config the configuration is only read: no store into a configuration field, no update of a configuration map (frozen exception: Open disables rollback mitigation for an ephemeral bucket).")
+also4("C18", "the serial-close mode is selected by streamEndNotSupportedData != nil only and that field is set only by NewStream's version test.")
+also4("C19", "HealthCheck.Start is a plain synchronous call of the start path; NewHealthCheck wires the client it was given unchanged.")
+also4("C20", "every single-operation wrapper issues its operation before any return that does not carry a known non-nil error (no cached answers); no component rewrites the shared configuration after defaulting.")
